@@ -543,6 +543,7 @@ def hug(rng, v):
 
 class C09(PropertyCheck):
     pid = "C09"
+    generated_modules = ["OverSample"]  # second tie: translated sub-grid formulas = Model/OverSample.lean (over any field)
     title = "over-sampling: uniform partition, per-pixel means, decorator, iterate rule"
     rtol = F(1, 10 ** 9)
     nontrivial_rule = (
